@@ -142,6 +142,33 @@ func hsDrawPlan(rt *rapid.T, focus string) *hsPlan {
 	opened := 0
 	type sst struct{ post, ended, rst bool }
 	var ss []sst
+	if (focus == "C15" || focus == "C16") && vs.Pct(c, 35) {
+		// "early reset" shape: fill the handler slots, reset those streams while
+		// their handlers are still running, and open as many again, so that
+		// handlers queue up behind handlers of streams that no longer exist.
+		m := vs.Pick(c, 2, 1, 3)
+		p.maxStreams = uint32(m)
+		nstreams = max(nstreams, 2*m+vs.Range(c, 0, 2))
+		for round := 0; round < 2; round++ {
+			for k := 0; k < m; k++ {
+				op := hsOp{kind: "open", s: opened, decl: -1}
+				p.ops = append(p.ops, op)
+				h := hsDrawHandler(c, focus, false)
+				if len(h) == 0 {
+					h = []hsHOp{{kind: "flush"}}
+				}
+				p.handlers = append(p.handlers, h)
+				ss = append(ss, sst{ended: true})
+				opened++
+			}
+			if round == 0 {
+				for k := 0; k < m; k++ {
+					p.ops = append(p.ops, hsOp{kind: "rst", s: k, code: ErrCodeCancel})
+				}
+			}
+		}
+		vs.G.Inc("plan.early_reset_shape")
+	}
 	for i := 0; i < nops; i++ {
 		k := c.Intn(20)
 		switch {
